@@ -45,22 +45,22 @@ func SequenceList(v Object) (*List, error) {
 
 // Converts a sequence object v into a Set
 func SequenceSet(v Object) (*Set, error) {
-	switch x := v.(type) {
-	case Tuple:
-		return NewSetFromItems(x), nil
-	case *List:
-		return NewSetFromItems(x.Items), nil
-	default:
-		s := NewSet()
-		err := Iterate(v, func(item Object) bool {
-			s.Add(item)
-			return false
-		})
-		if err != nil {
-			return nil, err
+	s := NewSet()
+	var hashErr error
+	err := Iterate(v, func(item Object) bool {
+		if hashErr = CheckHashable(item); hashErr != nil {
+			return true
 		}
-		return s, nil
+		s.Add(item)
+		return false
+	})
+	if err == nil {
+		err = hashErr
 	}
+	if err != nil {
+		return nil, err
+	}
+	return s, nil
 }
 
 // Call __next__ for the python object
